@@ -29,6 +29,7 @@ RULE = (
     "non-trivial = two records of one type reach the same scope, or a record is made outside / "
     "after completion, or a merge raises"
 )
+RULE += ' Rounds 10-13: WIDE scopes (4-9 (12) children, one or two in tasks outliving their siblings); scope objects created in one order and entered in another; own trace id / logger on nested scopes; a merge callable switched between two view requests.'
 ASSUMPTIONS = [
     "M2 instances are falsy (__bool__ returns False): still folded like any other metric",
     "a record made through a context whose scope already completed is dropped (and never raises)",
